@@ -567,12 +567,29 @@ def run_sim_impl(sc, variant=None):
                                           profile=variant.get("profile", False),
                                           real_time=variant.get("real_time", False),
                                           log_file=variant.get("log_file"))
+            late = []
+            if sc.get("late_config"):
+                # the configuration objects are handed over first and filled in afterwards (before the simulation is
+                # built): they are plain mutable dataclasses, and what counts is what they say when the run starts
+                want = (cfg.duration, cfg.max_iterations)
+                cfg.duration, cfg.max_iterations = 1e-3, 1
+                late.append(lambda: (setattr(cfg, "duration", want[0]), setattr(cfg, "max_iterations", want[1])))
             b = SimulationBuilder(cfg)
             rng, delay, fail = sc["med"]
             rate, speed, ref = sc["mob"]
             for h in sc["handlers"]:
                 if h == "T":
                     b.add_handler(TimerHandler())
+                elif h == "C" and sc.get("late_config"):
+                    med = CommunicationMedium(transmission_range=1e-6, delay=7.0, failure_rate=0.5 if _num(fail) in (0, 1) else 1)
+                    b.add_handler(CommunicationHandler(med))
+                    late.append(lambda med=med: (setattr(med, "transmission_range", _num(rng)), setattr(med, "delay", _num(delay)),
+                                                 setattr(med, "failure_rate", _num(fail))))
+                elif h == "M" and sc.get("late_config"):
+                    mc = MobilityConfiguration(update_rate=977.0, default_speed=1e-3, reference_coordinates=(10.0, 10.0, 10.0))
+                    b.add_handler(MobilityHandler(mc))
+                    late.append(lambda mc=mc: (setattr(mc, "update_rate", _num(rate)), setattr(mc, "default_speed", _num(speed)),
+                                               setattr(mc, "reference_coordinates", tuple(ref))))
                 elif h == "C":
                     b.add_handler(CommunicationHandler(_shared_config(("med", rng, delay, fail, bool(sc.get("int_numbers"))), lambda: CommunicationMedium(
                         transmission_range=_num(rng), delay=_num(delay), failure_rate=_num(fail)))))
@@ -590,6 +607,8 @@ def run_sim_impl(sc, variant=None):
                 ids.append(b.add_node(PROTO[nd["ty"]], tuple(_num(float(v)) for v in nd["pos"])))
             if ids != list(range(len(ids))):
                 CTX.trace.append("ids %s" % ids)
+            for f in late:
+                f()
             if sc.get("rerun") and sc["drv"][0] == "run":
                 # the scenario is first run once to its end from the same builder (same handler objects); what is
                 # recorded is the SECOND run, which must be what a fresh run is
